@@ -1015,9 +1015,9 @@ impl Sim {
                 self.spurious_poll_random();
             }
             guard += 1;
-            if guard > 2_000_000 {
-                self.note(|| "settle: more than 2000000 rounds without quiescence".into());
-                self.panics.push("harness: VERIF_LIVELOCK settle did not reach quiescence".into());
+            if guard > 400_000 {
+                self.note(|| "settle: more than 400000 scheduling rounds without quiescence (tasks keep waking themselves)".into());
+                self.panics.push("VERIF_LIVELOCK: no quiescence after 400000 scheduling rounds (self-waking task never finishes)".into());
                 break;
             }
         }
